@@ -4,7 +4,7 @@
    (vm_compute) for the finite range in the statement; C16_partial = what is proved of C16_full. *)
 From Coq Require Import List ZArith QArith Bool Arith Lia.
 From GV Require Import Lib.Tree Lib.Graph16 Lib.PolyRefl16 Model.QCount Model.CliqueEq
-                       Proofs.QCountP Proofs.CliqueEqP Proofs.CycleGen Proofs.QQGen Proofs.CliqueGen Proofs.CrossGen.
+                       Proofs.QCountP Proofs.CliqueEqP Proofs.CycleGen Proofs.QQGen Proofs.CliqueGen Proofs.CrossGen Proofs.CayleyRed.
 Import ListNotations.
 
 (* ------------------------------------------------------------------------------------------------
@@ -264,6 +264,31 @@ Theorem C16_check_row_sound_all : forall bmax n rs, (1 <= n)%nat ->
 Proof. exact check_row_sound_all. Qed.
 Print Assumptions C16_check_row_sound_all.
 
+(* ---- GENERAL (growth): a connected graph on n vertices has at least n - 1 edges (the out-of-range branch of Q) *)
+Theorem C16_connected_needs_n_minus_1_edges : forall vs es, NoDup vs -> edges_in vs es -> Connected vs es ->
+  (length vs <= S (length es))%nat.
+Proof. exact connected_edges_lb. Qed.
+Print Assumptions C16_connected_needs_n_minus_1_edges.
+
+Theorem C16_no_connected_graph_below_tree : forall n i, (S i < n)%nat -> brute n i = 0%Z.
+Proof. exact brute_below_tree. Qed.
+Print Assumptions C16_no_connected_graph_below_tree.
+
+(* ---- REDUCTION (growth): the recursion Q as written counts the connected labelled graphs for ALL n and k, GIVEN
+   Cayley's formula for the k = n-1 shortcut n^(n-2).  The general branch is the counting identity
+   (C16_counting_identity, trimmed summation range included), the out-of-range branch is the lower bound above.
+   Cayley's formula itself is NOT proved here; it holds for n <= 12 (C16_Cayley_upto_12). *)
+Theorem C16_Q_count_reduces_to_Cayley :
+  (forall n, (2 <= n)%nat -> brute n (n - 1) = (Z.of_nat n ^ (Z.of_nat n - 2))%Z) ->
+  forall n, (1 <= n)%nat -> forall k, (0 <= k <= tri (Z.of_nat n))%Z -> Qcode n k = brute n (Z.to_nat k).
+Proof. exact Q_count_from_Cayley. Qed.
+Print Assumptions C16_Q_count_reduces_to_Cayley.
+
+Theorem C16_Cayley_upto_12 : forall n, (2 <= n <= 12)%nat ->
+  brute n (n - 1) = (Z.of_nat n ^ (Z.of_nat n - 2))%Z.
+Proof. exact Cayley_upto_12. Qed.
+Print Assumptions C16_Cayley_upto_12.
+
 (* ---- GENERAL: the polynomial the model puts on the wire evaluates, for every valuation of the variables,
    to the code's arithmetic on rationals (so comparing polynomials compares the functions) *)
 Theorem C16_clique_model_semantics : forall l tau P HS,
@@ -400,6 +425,18 @@ Proof.
   intros n k Hn Hk. rewrite <- Qv_is_code by lia. apply Q_count_upto_12; assumption.
 Qed.
 Print Assumptions C16_partial_v3.
+
+(* ---- growth: THE WHOLE PROPERTY reduces to Cayley's formula (number of labelled trees = n^(n-2)) *)
+Theorem C16_full_reduces_to_Cayley :
+  (forall n, (2 <= n)%nat -> brute n (n - 1) = (Z.of_nat n ^ (Z.of_nat n - 2))%Z) -> C16_full.
+Proof.
+  intros HCay. split; [|split; [|split]].
+  - apply clique_identity_reduces_to_Q_count. intros n k Hn Hk. apply Qv_count_from_Cayley; assumption.
+  - exact cycle_identity_general.
+  - intros n k Hn Hk. split; [apply Q_count_from_Cayley; assumption | apply QQ_eq_brute_general; exact Hk].
+  - exact ncg_spec.
+Qed.
+Print Assumptions C16_full_reduces_to_Cayley.
 
 (* ---- non-vacuity: concrete non-trivial inputs meeting the hypotheses *)
 (* the triangle with a pendant vertex, ak = [1;2], i = 0, k = 1: three ways to delete one edge of the
